@@ -506,6 +506,19 @@ pub struct Applied {
     pub key: i32,
 }
 
+/// constructs the collection under observation: a panicking constructor becomes the last event
+fn make_observed<C: OrdColl>(tr: &mut Trace, cap: usize) -> C {
+    tr.pre(&format!("\"op\":\"construct\",\"cap\":{},\"out\":\"aborted\"", cap));
+    match observe(0, || C::make(cap)).out {
+        Outcome::Ok(c) => c,
+        Outcome::Panic(m) => {
+            tr.line(&format!("\"ev\":\"op\",\"op\":\"construct\",\"cap\":{},\"out\":\"panic\",\"msg\":\"{}\"", cap, esc(&m)));
+            tr.end_after_fatal()
+        }
+        Outcome::Unwound(_) => unreachable!(),
+    }
+}
+
 pub struct OrdSession<'a, C: OrdColl> {
     pub c: C,
     pub tr: &'a mut Trace,
@@ -524,7 +537,8 @@ pub struct OrdSession<'a, C: OrdColl> {
 
 impl<'a, C: OrdColl> OrdSession<'a, C> {
     pub fn new(tr: &'a mut Trace, keys: i32, cap: usize, obs_every: u64) -> Self {
-        let mut s = OrdSession { c: C::make(cap), tr, mine: BTreeSet::new(), keys, cap, obs_every, snap_every: 1, opcount: 0, version: 0, dead: false };
+        let c = make_observed::<C>(tr, cap);
+        let mut s = OrdSession { c, tr, mine: BTreeSet::new(), keys, cap, obs_every, snap_every: 1, opcount: 0, version: 0, dead: false };
         s.log_reset();
         s
     }
@@ -544,7 +558,7 @@ impl<'a, C: OrdColl> OrdSession<'a, C> {
     }
     pub fn reset(&mut self, cap: usize) {
         self.cap = cap;
-        self.c = C::make(cap);
+        self.c = make_observed::<C>(self.tr, cap);
         self.mine.clear();
         self.dead = false;
         self.log_reset();
